@@ -114,6 +114,26 @@ def random_program(rnd):
     return "\n".join(L) + "\n"
 
 
+def big_rw_programs(rnd):
+    """one read / write of 1 MiB and more (and the neighbours of the power of two), minimum = everything / one byte less / 1, the kernel
+    moving it in one piece, two pieces or 64 KiB pieces: the count reported lies between the minimum and the length, data byte-exact"""
+    out = []
+    for kind, q in (("read", "rx"), ("write", "tx")):
+        for n in ((1 << 20), (1 << 20) + 1, 3145854):
+            for mn in (n, n - 1, 1):
+                for style in ("one", "two", "pieces"):
+                    L = ["prog net", "nfd 1", "main"]
+                    if style == "one":
+                        L.append("  %s 0 D %d 0 0" % (q, n))
+                    elif style == "two":
+                        L += ["  %s 0 D %d 0 0" % (q, n // 2), "  %s 0 A 0 11 0" % q, "  %s 0 D %d 0 0" % (q, n - n // 2)]
+                    else:
+                        L += ["  %s 0 D 65536 0 0" % q] * (n // 65536 + 1)
+                    L += ["  %s 1 0 %d %d" % (kind, n, mn), "  drain", "endmain", "end"]
+                    out.append("\n".join(L) + "\n")
+    return out
+
+
 def accept_program(rnd):
     L = ["prog net", "nfd 1", "main"]
     t = 0
@@ -147,6 +167,7 @@ def run(c, exe=None):
         raise vlib.ToolFailure("NetConnect produced nothing\n" + r.out[-2000:])
     c.cov["enumerated_cases"]["NetConnect"] = len(cases)
     progs += [connect_program(x) for x in cases]
+    progs += big_rw_programs(rnd)
     c.cov["exhaustive"] = True
     for _ in range(c.pick(600, 12000)):
         progs.append(random_program(rnd))
